@@ -41,7 +41,8 @@ prop("C13", "Deterministic, input not modified", BF, ["frame", "alias"],
 prop("C15", "Token state well-formed", BF, [],
      "WFvalues (every stored token entry decodes to a record with a non-negative value) is preserved by every entry point that writes token entries; zero-balance deletion is part of the exact-delta clauses. Partial: key-layout and no-duplicate-role clauses are not yet stated.")
 prop("C16", "Priced by its own schedule entry", BF, [],
-     "Each SetNewGasConfig installs the function's own BuiltInCost entry (and the whole base-cost block where used); each priced entry point consumes exactly its own cost plus the documented per-byte components. Not covered: GasScheduleChange / createGasConfig (reflection, mapstructure).")
+     "Each SetNewGasConfig installs the function's own BuiltInCost entry (and the whole base-cost block where used); each priced entry point consumes exactly its own cost plus the documented per-byte components; createGasConfig accepts exactly the complete non-zero schedules and GasScheduleChange leaves everything unchanged otherwise (given the assumed contracts of mapstructure.Decode and of the reflection helper check.ForZeroUintFields, the latter cross-checked by a bounded stand-in). Not covered: that an accepted change re-prices every registered function (dynamic dispatch over the registry).",
+     bounded=[{"name": "check.ForZeroUintFields", "cmd": "tools/bounded_ifzero.sh", "bound": "exhaustive: all 2^6 + 2^16 zero/non-zero patterns of BaseOperationCost and BuiltInCost on the real code"}])
 prop("C17", "A failing dependency is never reported as success", BF, [],
      "Every listed dependency call sets the ghost flag 'failed' when it returns a non-nil (unconstrained, symbolic) error; every entry point proves err == nil => failed unchanged, so every k-th-call fault is covered by the universal quantifier.")
 prop("C18", "Activation follows confirmed epochs", ["contracts:^builtInFunctions\\.(\\(\\*baseEnabled\\)|\\(baseAlwaysActive\\)|lemmaActivation)"], ["safety"],
